@@ -262,7 +262,7 @@ template <class G> int runOne(Family fam, bool directed, bool labelled, const st
         Invalid<G> inv(g, m, sink);
         inv.run();
     };
-    if (args.has("ops")) return replayHistory<G>(cfg, "C07", args);
+    if (args.has("ops")) return replayHistory<G>(cfg, "C07", args, ex.extraStateCheck);
     ex.run();
     rep.count("rejected_calls", (long long)g_calls);
     rep.count("rejected_calls_on_nonempty_graphs", (long long)g_nontrivial);
@@ -272,7 +272,7 @@ template <class G> int runOne(Family fam, bool directed, bool labelled, const st
     std::string out = args.get("out", "");
     if (!out.empty() && !rep.write(out)) return 2;
     printf("C07 %s: states=%lld rejected_calls=%llu entry_points=%zu violations=%llu wall=%.1fs\n", cfg.name.c_str(), rep.counters["states"], g_calls, g_entryPoints.size(), rep.violations(), clock_().elapsed());
-    return 0;
+    return args.has("exitcode") && rep.violations() ? 1 : 0;
 }
 
 int main(int argc, char **argv) {
